@@ -108,7 +108,7 @@ def run(sc):
     for o in core.random_history(_rng.mix(sc["hist_seed"], p), mjm, nworld, sc["gap"]):
       core.apply_op(cr, o)
     S = core.get_istate(mjm, m, R)
-    if not np.all(np.isfinite(S)) or scen.capacity_overflow(R):
+    if not np.all(np.isfinite(S)) or scen.capacity_overflow(R) or float(np.max(np.abs(S[:, 1 : 1 + mjm.nq + mjm.nv]))) > 1e3:
       stats["skipped"]["bad_probe_state"] = stats["skipped"].get("bad_probe_state", 0) + 1
       break
     REF = core.make_data(mjm, m, {"nworld": nworld, "how": "make", "caps": ample})
